@@ -488,8 +488,10 @@ def cargo_toml_ob(P, R, mp, log_dir, bound, pid):
         pairs = 0
         if len(infos) == 2:
             # both executors share variable names (same construction), so a pc of run B can be asserted in run A's context
-            cand = [(oa, la, ob, lb) for (oa, la) in infos[0] for (ob, lb) in infos[1]
-                    if oa.state.facts.get("len:g.6") == ob.state.facts.get("len:g.6") and (oa.state.facts.get("len:g.6") or 0) >= 2]
+            # the order of the `rust::` lines does not depend on the feature flags (they are decided before the loop): compare the flag-free paths
+            noflags = lambda o_: all(f"(not g.{i})" in o_.pc for i in (3, 4, 5))
+            cand = [(oa, la, ob, lb) for (oa, la) in infos[0] if noflags(oa) for (ob, lb) in infos[1] if noflags(ob)
+                    and oa.state.facts.get("len:g.6") == ob.state.facts.get("len:g.6") and (oa.state.facts.get("len:g.6") or 0) >= 2]
             for d in exB.enc.decls:
                 if d not in exA.enc.decls:
                     exA.enc.decls.append(d)
